@@ -13,6 +13,8 @@ type CanonOpts struct {
 	NSOf map[string]string
 	// NoDesc drops descriptions (input/output cannot carry one in goyang).
 	NoDesc bool
+	// NoRO drops the inherited read-only flag (own properties only).
+	NoRO bool
 }
 
 // TypeSig renders a resolved type.
@@ -149,6 +151,9 @@ func Canon(root *XNode, o CanonOpts) []string {
 		ro := x.ReadOnly()
 		if x.ObsRO != nil {
 			ro = *x.ObsRO
+		}
+		if o.NoRO {
+			ro = false
 		}
 		line := x.Line(o, uri, ro)
 		if !x.Implicit {
